@@ -119,6 +119,34 @@ func SelfTest(c *core.Ctx) int {
 			l.Out.UDef[0].Preds[0].Op = 9
 			return true
 		}},
+		{"FetchEvents lost a returned pair", "C17_FetchNotHidden", false, func(l *Line) bool {
+			if l.K != "fetch" {
+				return false
+			}
+			for i := range l.Out.Fired {
+				for j := range l.Out.Fired[i] {
+					if l.Out.Fired[i][j] {
+						l.Out.Fired[i][j] = false
+						return true
+					}
+				}
+			}
+			return false
+		}},
+		{"FetchEvents returned a pair that does not match", "C17_FetchOnlyMatching", false, func(l *Line) bool {
+			if l.K != "fetch" {
+				return false
+			}
+			for i := range l.Out.Fired {
+				for j := range l.Out.Fired[i] {
+					if !l.Out.Fired[i][j] {
+						l.Out.Fired[i][j] = true
+						return true
+					}
+				}
+			}
+			return false
+		}},
 		{"logged log data differs from the concretisation", "conc-log", true, func(l *Line) bool {
 			if l.K != "match" {
 				return false
